@@ -154,3 +154,28 @@ def corpus(seed, n_cases, max_len=900, kinds=None, fs_bands=None, min_cycles=8):
         out.append({'q': q, 'e': e, 'sig': q.astype(float) * (2.0 ** e), 'fs': fs, 'f_range': f_range, 'kind': kind,
                     'opts': opts, 'k': k})
     return out
+
+
+LONG_CYCLE_BANDS = [(1000, (4, 8)), (1024, (3, 6)), (2000, (8, 12)), (1000, (2, 5))]      # >= 128 samples per cycle
+LONG_RECORDING_BANDS = [(1000, (13, 30)), (500, (8, 12)), (1024, (8, 12))]
+
+
+def large_cases(seed, n_long_cycles, n_long_recordings, kinds=None):
+    """Beyond small scopes: cycles of more than 128 / 256 samples, and recordings of more than 2**15 / 2**16 samples with hundreds to thousands
+    of cycles (sample indices, row counts and per-cycle sample counts outgrow 8- and 16-bit integers)."""
+    rng = np.random.default_rng(seed)
+    kinds = kinds or ['sine_bursts', 'asym', 'powerlaw_osc', 'two_osc', 'quantised']
+    cases = []
+    for i in range(n_long_cycles + n_long_recordings):
+        long_rec = i >= n_long_cycles
+        fs, fr = (LONG_RECORDING_BANDS if long_rec else LONG_CYCLE_BANDS)[int(rng.integers(0, 3 if long_rec else 4))]
+        n = int(rng.choice([33500, 40000, 66500])) if long_rec else int(rng.integers(9, 14) * fs / fr[0])
+        kind = kinds[int(rng.integers(0, len(kinds)))]
+        k = int(rng.integers(0, 1000))
+        opts = option_set(rng, fs, fr, k)
+        if (opts.get('find_extrema_kwargs') or {}).get('boundary', 0) > fs // 4:
+            opts['find_extrema_kwargs']['boundary'] = 5
+        x = waveform(rng, kind, n, fs, fr)
+        q, e = to_grid(rng, x, kind)
+        cases.append({'q': q, 'e': e, 'sig': q.astype(float) * (2.0 ** e), 'fs': fs, 'f_range': fr, 'kind': kind, 'opts': opts, 'k': k})
+    return cases
